@@ -2,7 +2,7 @@
    and sequences of requests (one paging cycle returns every model containing A exactly once). *)
 From Coq Require Import List ZArith Bool Lia Permutation.
 From DD Require Import Model.Circuit Model.Query Model.Enumerate
-     Proofs.PassLemmas Proofs.Enum Proofs.Semantics Proofs.CountsA Proofs.QueryDefs
+     Proofs.PassLemmas Proofs.Enum Proofs.Semantics Proofs.CountsA Proofs.QueryDefs Proofs.Live
      Proofs.C06Prefix Proofs.C06Machine Proofs.C06Node Proofs.C06Sort.
 Import ListNotations.
 Open Scope Z_scope.
@@ -95,7 +95,7 @@ Proof.
   apply Z.ltb_lt in Ec. specialize (Hts Ec).
   assert (Hrt : rt (build C n) s2 = c).
   { unfold rt, rootn. cbn [circ build]. fold (root C).
-    rewrite Hts; [|apply root_lt; apply HWF|now apply (root_not_true C n)].
+    rewrite Hts; [|apply root_lt; apply HWF|now apply (root_not_true C n)|apply reach_root].
     rewrite (countsA_MCA C n);
       [|exact HWF|eapply in_range_same_set; [apply same_set_sym, enum_key_In|exact HA]].
     apply MCA_same_set. apply enum_key_In. }
@@ -128,6 +128,7 @@ Proof.
   - exact Hor.
   - apply root_lt. apply HWF.
   - now apply (root_not_true C n).
+  - apply reach_root.
   - apply root_lt. apply HWF.
   - unfold stop. lia.
   - rewrite Hlen. unfold stop. lia.
@@ -499,7 +500,7 @@ Proof.
   split; [|split].
   - unfold rc, rootn. cbn [cnts circ build]. fold (root C).
     rewrite <- root_count_nth, (count_is_MC C n HWF). unfold MC, MCA. now rewrite ModelsA_nil.
-  - intros _ i Hi Hnt. cbn [temps enum_key dedup sort_abs fold_right]. change (countsA [] C) with (counts C).
+  - intros _ i Hi Hnt _. cbn [temps enum_key dedup sort_abs fold_right]. change (countsA [] C) with (counts C).
     apply hide_true_nth. intros Hin. apply Hnt.
     assert (Ht : is_true_node (build C n) i = true).
     { unfold is_true_node. apply existsb_exists. exists i. split; [exact Hin|apply Nat.eqb_refl]. }
